@@ -150,44 +150,112 @@ func c04r1(c *core.Ctx) {
 	}
 	tr := GetTableRoles(c)
 	// functions that call the registrar with their own relation parameter on every normal path
+	// (to a fixpoint: handing the parameter to a function that itself registers on every path counts)
 	mustRegister := map[*core.Func]bool{}
-	for _, f := range m.Funcs {
-		rp := relationIDsParam(f)
-		if rp == nil || f == registrar {
-			continue
-		}
-		var entry ast.Node
-		if len(f.Body.List) > 0 {
-			entry = f.Body.List[0]
-		}
-		if entry == nil {
-			continue
-		}
-		pending := true
-		g := m.CFG(f)
-		fr := core.Forward(g, core.Flow[bool]{
-			Entry: true,
-			Join:  func(a, b bool) bool { return a || b },
-			Equal: func(a, b bool) bool { return a == b },
-			Node: func(s bool, _ *cfg.Block, n ast.Node) bool {
-				core.WalkEval(n, func(x ast.Node, cond bool) {
-					if call, ok := x.(*ast.CallExpr); ok && !cond {
-						if k, cal, _ := m.Callee(call); k == core.CallStatic && cal == registrar && argIsVar(m, call, rp) {
-							s = false
+	for changed := true; changed; {
+		changed = false
+		for _, f := range m.Funcs {
+			rp := relationIDsParam(f)
+			if rp == nil || f == registrar || mustRegister[f] {
+				continue
+			}
+			var entry ast.Node
+			if len(f.Body.List) > 0 {
+				entry = f.Body.List[0]
+			}
+			if entry == nil {
+				continue
+			}
+			pending := true
+			g := m.CFG(f)
+			fr := core.Forward(g, core.Flow[bool]{
+				Entry: true,
+				Join:  func(a, b bool) bool { return a || b },
+				Equal: func(a, b bool) bool { return a == b },
+				Node: func(s bool, _ *cfg.Block, n ast.Node) bool {
+					core.WalkEval(n, func(x ast.Node, cond bool) {
+						if call, ok := x.(*ast.CallExpr); ok && !cond {
+							if k, cal, _ := m.Callee(call); k == core.CallStatic && (cal == registrar || mustRegister[cal]) && argIsVar(m, call, rp) {
+								s = false
+							}
 						}
-					}
-				})
-				return s
-			},
-		})
-		pending = false
-		for _, b := range g.Blocks {
-			if fr.Reached[b] && m.IsReturnExit(b) && fr.Out[b] {
-				pending = true
+					})
+					return s
+				},
+			})
+			pending = false
+			for _, b := range g.Blocks {
+				if fr.Reached[b] && m.IsReturnExit(b) && fr.Out[b] {
+					pending = true
+				}
+			}
+			if !pending {
+				mustRegister[f] = true
+				changed = true
 			}
 		}
-		if !pending {
-			mustRegister[f] = true
+	}
+	// k2ok: functions (of any type) that themselves place rows and register their relation parameter after the first
+	// row mutation on every path; a World method that only delegates to such a function is covered by it
+	k2ok := map[*core.Func]bool{}
+	k2 := func(f *core.Func, rp *types.Var) bool {
+		mut := false
+		for _, s := range c.Eff.Stores(f) {
+			if s.Path.Last() == "table.len" {
+				mut = true
+			}
+		}
+		if !mut {
+			return false
+		}
+		calls := func(n ast.Node) bool {
+			call, ok := n.(*ast.CallExpr)
+			if !ok {
+				return false
+			}
+			k, cal, _ := m.Callee(call)
+			if k != core.CallStatic {
+				return false
+			}
+			for _, arg := range call.Args {
+				if id, ok := ast.Unparen(arg).(*ast.Ident); ok && m.Info.ObjectOf(id) == types.Object(rp) {
+					if cal == registrar || mustRegister[cal] || k2ok[cal] {
+						return true
+					}
+				}
+			}
+			return false
+		}
+		var firstMut ast.Node
+		core.InspectNoLits(f.Body, func(n ast.Node) bool {
+			if firstMut != nil {
+				return false
+			}
+			if call, ok := n.(*ast.CallExpr); ok {
+				if k, cal, _ := m.Callee(call); k == core.CallStatic {
+					for _, s := range c.Eff.Stores(cal) {
+						if s.Path.Last() == "table.len" {
+							firstMut = call
+							return false
+						}
+					}
+				}
+			}
+			return true
+		})
+		return firstMut != nil && (calls(firstMut) || followedOnAllPaths(m, f, firstMut, calls))
+	}
+	for changed := true; changed; {
+		changed = false
+		for _, f := range m.Funcs {
+			rp := relationIDsParam(f)
+			if rp == nil || f == registrar || k2ok[f] || f.Recv == "World" {
+				continue
+			}
+			if k2(f, rp) {
+				k2ok[f] = true
+				changed = true
+			}
 		}
 	}
 	for _, f := range m.Funcs {
@@ -222,7 +290,7 @@ func c04r1(c *core.Ctx) {
 			}
 			for _, arg := range call.Args {
 				if id, ok := ast.Unparen(arg).(*ast.Ident); ok && m.Info.ObjectOf(id) == rp {
-					if cal == registrar || mustRegister[cal] {
+					if cal == registrar || mustRegister[cal] || k2ok[cal] {
 						return true
 					}
 				}
